@@ -27,7 +27,9 @@ ArgClasses(f) ==
 \* mutations: the result is NOT a documented command
 ForwardMuts == {"trailing_word", "prefix_word", "second_statement", "missing_to", "misspelt_keyword",
                 "trailing_comment", "leading_comment", "bad_argument", "negative_number", "in_parentheses",
-                "embedded_in_select"}
+                "embedded_in_select",
+                \* the command text on a line of its own inside a larger (multi-line) query
+                "line_after_statement", "line_before_statement", "line_in_block_comment", "line_in_string"}
 Muts == {"none"} \cup ForwardMuts
 
 B(x) == IF x THEN 1 ELSE 0
